@@ -30,6 +30,9 @@ pub struct Variant {
     /// differential / secondary executions derived from the primary run (restart vs none, crash
     /// enumeration, backend twin); returns additional violations and probe counts
     pub post: Option<fn(&Variant, &RunOutput) -> (Vec<Violation>, Vec<(String, u64)>)>,
+    /// runs that are not world simulations (storage-level operation sequences, constructor
+    /// matrices): executed instead of `run_world`, same output shape, same replay/minimiser
+    pub custom: Option<fn(&RunCfg, Option<&[Step]>) -> RunOutput>,
 }
 
 pub struct CheckSpec {
@@ -121,7 +124,11 @@ pub fn exec_primary(v: &Variant, cfg: RunCfg, replay: Option<Vec<Step>>) -> Resu
     let oracle = v.oracle;
     let conf = v.configure_gen;
     let seed = cfg.seed;
+    let custom = v.custom;
     seam::run_isolated(seed, T0, move || {
+        if let Some(c) = custom {
+            return c(&cfg, replay.as_deref());
+        }
         let mut o = oracle(&cfg);
         let cg: Option<Box<dyn Fn(&mut Gen)>> = conf.map(|f| Box::new(move |g: &mut Gen| f(g)) as Box<dyn Fn(&mut Gen)>);
         run_world(&cfg, replay.as_deref(), o.as_mut(), cg.as_deref())
